@@ -70,12 +70,8 @@ func (in *Interp) assert(label string, cond *term.Term) {
 	if ob.Status == "closed" || ob.Status == "discharged" {
 		return
 	}
-	// continue under the assumption that the assertion held, so that later
-	// obligations on this path are independent findings
-	if cond.IsConst() || !in.feasible(cond) || !in.feasiblePrecise(cond) {
-		panic(pathEnd{"assert-failed", label})
-	}
-	in.addPC(cond)
+	// the path continues without assuming the failed assertion: later
+	// obligations are decided on their own
 }
 
 func registerHarnessIntrinsics() {
